@@ -27,7 +27,7 @@ func (c03) ProcOpts() Proc { return Proc{RlimitAS: 4 << 30} }
 
 var c03choiceFeatures = []string{"int.w2", "int.w3", "int.w5", "long.w2", "long.w3", "long.w5", "long.w9", "dbl.w2", "dbl.w3", "dbl.w5", "dbl.w9",
 	"date.x4b", "chunk.split", "chunk.empty", "chunk.empty-lead", "chunk.empty-tail", "chunk.grow", "str.medium", "str.S", "bin.x34", "bin.B", "bin.x62", "bin.nonfinal",
-	"list.V", "list.x55", "list.x58", "list.x57", "type.index", "obj.O", "def.hoist"}
+	"list.V", "list.x55", "list.x58", "list.x57", "type.index", "obj.O", "def.hoist", "def.float"}
 
 func (c03) Cases(tier string, seed int64, kf *KnownFindings) []Case {
 	var cs []Case
@@ -323,6 +323,8 @@ func c03examples(c Case, env *Env, res *Result) {
 		{"long x59", "x59 x80 x00 x00 x00", int64(-2147483648), nil},
 		{"int I", "I x00 x00 x01 x2c", int32(300), nil},
 		{"null", "N", nil, nil},
+		{"class definition in front of a string field value", "C x0b example.Car x92 x05 color x05 model x60 C x0d example.Color x91 x04 name x03 red x05 civic", &exCar{"red", "civic"}, []string{"choice:def.float"}},
+		{"class definition in front of an int field value", "C x0a LinkedList x92 x04 head x04 tail x60 C x0d example.Color x91 x04 name x91 N", &exList{Head: 1}, []string{"choice:def.float"}},
 	}
 	for i, e := range exs {
 		if c.S != "" {
